@@ -7,7 +7,7 @@ EXTENDS Integers, Sequences, FiniteSets, TLC
 
 EColls == {"c0", "c1"}
 EKeys  == {"k1", "k2"}
-EOps   == {"Set", "SetPres", "Add", "Touch", "Delete", "Incr", "UpdateXattrs", "WriteCas", "Reopen"}
+EOps   == {"Set", "SetPres", "Add", "Touch", "Delete", "Incr", "UpdateXattrs", "WriteCas", "Reopen", "Recreate"}
 NoDoc  == [live |-> FALSE, dl |-> 0, row |-> FALSE]
 
 (* the document after operation op with expiry argument e (as a deadline) *)
@@ -21,6 +21,12 @@ After(d, op, e) ==
       [] op = "UpdateXattrs" -> IF d.live THEN [d EXCEPT !.dl = e] ELSE d
       [] op = "WriteCas" -> [live |-> TRUE, dl |-> e, row |-> TRUE]
       [] OTHER -> d
+
+(* Recreate: the collection is dropped and created again under the same name: all its documents are gone, and *)
+(* what is written into it afterwards expires like anything else                                              *)
+AfterAll(ds, op, c, k, e) ==
+    IF op = "Recreate" THEN (IF c = "c1" THEN [ds EXCEPT ![c] = [k2 \in EKeys |-> NoDoc]] ELSE ds)
+    ELSE [ds EXCEPT ![c][k] = After(ds[c][k], op, e)]
 
 Deadlines(docs) == {docs[c][k].dl : c \in EColls, k \in EKeys} \ {0}
 MinOf(s) == CHOOSE m \in s : \A x \in s : m <= x
